@@ -88,9 +88,15 @@ TruncCases ==
            cfg |-> [dir |-> "t", ext |-> ".tw"],
            load |-> IF k \in ClosedAt(n) THEN [any |-> TRUE, mentions |-> SetToSeq(Refs(n))] ELSE [ok |-> FALSE, mentions |-> SetToSeq(Refs(n))],
            ops |-> <<>>, tags |-> <<"c18trunc", n, IF k \in ClosedAt(n) THEN "complete" ELSE "cut-open">>] : k \in 0..Len(GoodFiles[n])} : n \in DOMAIN GoodFiles}
-BaseCase == {[files |-> SetToSeq({FileRec(m, Cat(GoodFiles[m]), "") : m \in DOMAIN GoodFiles}), cfg |-> [dir |-> "t", ext |-> ".tw"],
-              load |-> [ok |-> TRUE, names |-> SetToSeq(GoodNames)],
+\* a file whose content has CR LF line ends, a lone CR, NUL, a byte order mark and non-ASCII text: evaluating it by path
+\* equals evaluating exactly these bytes as a string
+OddFile == FileRec("odd", "a$r$\nb$r$c$e$ {{ 1 }}$r$\n$r$\n{{ \"x$r$\ny\".len() }}|$z$|$u$", "")
+BomFile == FileRec("bom", "$b$first {{ 2 }}$r$\n", "")
+BaseCase == {[files |-> SetToSeq({FileRec(m, Cat(GoodFiles[m]), "") : m \in DOMAIN GoodFiles} \cup {OddFile, BomFile}), cfg |-> [dir |-> "t", ext |-> ".tw"],
+              load |-> [ok |-> TRUE, names |-> SetToSeq(GoodNames \cup {"odd", "bom"})],
               ops |-> HomeOp([kind |-> "out", out |-> GoodOut]) \o
+                      <<[op |-> "EvalFile", name |-> "odd", data |-> <<>>, expect |-> [kind |-> "any"]],
+                        [op |-> "EvalFile", name |-> "bom", data |-> <<>>, expect |-> [kind |-> "any"]]>> \o
                       <<[op |-> "String", name |-> "layouts/main", data |-> <<>>, expect |-> [kind |-> "err", why |-> "layouts are not renderable"]],
                         [op |-> "String", name |-> "about", data |-> <<>>, expect |-> [kind |-> "out", out |-> "plain 312"]],
                         [op |-> "EvalFile", name |-> "about", data |-> <<>>, expect |-> [kind |-> "any"]],
